@@ -5,3 +5,21 @@ add("C01", "exploration",
     "Every explored handshake configuration (suite x credentials x KG x privilege x lookup x BMC randoms) is executed for real against an independently written BMC; SIK/K1/K2 and IDs are compared byte for byte and follow-up commands must pass the BMC's own integrity check and decryption. Sampled + strided grid, so 'held on what was generated'.",
     "Trusted base: refbmc's reading of IPMI v2.0 13.28-13.32; Go crypto; the in-memory transport hook (also run hook-free over loopback UDP).",
     "DESIGN.md 5/C01")
+
+add("C05", "fault_enumeration",
+    "panic/over-read sanitizer: recover() on exact-capacity slices + poisoned-tail differential on every decoder; hostile-reply substitution at every transmission of live flows over the hooked transport",
+    "Ring 1 enumerates every truncation and single-byte boundary mutation of valid encodings of all 29 decodable layers (plus fills, PRNG, registered gopacket chains, string decoders, every AES pad count); ring 2 enumerates a derived hostile corpus at every reply position of eight call flows, including authentic packets around hostile plaintexts. Any panic, hang or dependence on bytes beyond the datagram is a violation.",
+    "Go bounds checks are the memory-safety oracle (pure Go, no unsafe); inputs outside the enumerated/mutated families are sampled only.",
+    "DESIGN.md 5/C05, 3.4")
+
+add("C08", "exploration",
+    "round-trip monitor: serialise (fresh and reused buffer) -> decode -> field compare -> re-serialise, AES checked by independent crypto/cipher decryption",
+    "Sampled values of the five two-way layers over their wire domains with payload lengths cycling through 0..200; equality of fields, inner payload, re-serialised bytes and (for AES) independently decrypted plaintext.",
+    "Values restricted to the wire domain; held on what was generated.",
+    "DESIGN.md 5/C08")
+
+add("C20", "exploration",
+    "exhaustive differential against arithmetic definitions through the exported API",
+    "Every finite domain named by the property is enumerated completely (exhaustive: true) and compared with a directly written definition.",
+    "BCD only defined for digits 0..9; period encoder definition as documented by the library.",
+    "DESIGN.md 5/C20")
